@@ -97,6 +97,14 @@ var rawTexts = []string{"http://i.test/\xff\xfe", "http://j.test/caf\xe9", "http
 
 var viaTexts = []string{"", "http://parent.test/", "http://parent.test/page?x=1", "https://other.test/ü", "http://p.test/\xe9"}
 
+// pickVia: the last entry of viaTexts is not valid UTF-8 and only used by the raw-bytes stream
+func pickVia(r *Rng, raw bool) string {
+	if raw {
+		return viaTexts[r.Intn(len(viaTexts))]
+	}
+	return viaTexts[r.Intn(len(viaTexts)-1)]
+}
+
 // ---- running cases in parallel child processes ----
 //
 // The sources under test are process-wide singletons and their batch timers are real (5 s), so
